@@ -460,6 +460,18 @@ def check_field(a, p, fname, val, ex, add, key0, stats, gram, by_nt, facts, node
         caps = [k for k, s in enumerate(sel) if s["kind"] == "lookahead" and inner_syms.index(s) == ii - 1]
         text = join_label(opt, "Some.0.%d" % ki) if len(sel) > 1 else join_label(opt, "Some.0")
         parse = ("call", "rules::aidl::core::str::<impl str>::parse", (text,))
+        # the number type the text is parsed as (generic argument of str::parse at the call site): codes are u32
+        ptys = set()
+        for fp in [a.fn_path] + facts.closures_of(a.fn_path, nested=True):
+            for b in facts.fns[fp]["body"]["blocks"]:
+                t = b["term"]
+                if t["k"] == "call":
+                    ci = callee_info(t)
+                    if ci and (ci.get("resolved") or ci["def"]).endswith("<impl str>::parse"):
+                        ptys.add(tuple(ci.get("resolved_args") or ci.get("args") or ()))
+        if ptys != set([("u32",)]):
+            emit(False, "the transact code must be parsed as u32 (every value of the INTEGER token that fits 32 bits is a code); str::parse is instantiated with %r" % sorted(ptys))
+            return
         pv = [v for l, v in p.conds if l == ("variant", parse)]
         if pv == ["Ok"]:
             ok = isinstance(val, AdtVal) and val.vname == "Some" and lab(val.fields[0].val) == ("field", parse, "Ok.0") and not pushes
